@@ -103,7 +103,9 @@ func (k Keeper) CalculateBatchAllocation(ctx context.Context, auction types.Auct
 		if matched { // If we found a valid matching price, store the result
 			matchRes = res
 		}
-		return matched
+		// The searched predicate must be monotone in the price: the demand fits the
+		// selling amount (res != nil), whether or not anything is matched at this price.
+		return res != nil
 	})
 
 	mInfo.MatchedLen = int64(len(matchRes.MatchedBids))
